@@ -24,7 +24,8 @@ for sid in sorted(os.listdir(root)):
     fv = (caught[0]['first_violation'][:110].replace('|', '/') if caught else '')
     fe = (f or {}).get('result', '')
     if (f or {}).get('what_was_done'):
-        fe += ': ' + f['what_was_done']
+        w = f['what_was_done']
+        fe = w if w.startswith(fe) else fe + ': ' + w
     rows.append((sid, m.get('change_summary', ''), m.get('needs_to_manifest', ''), by, fe))
 print('| seed | change (by an independent sub-agent) | needs | caught by (now) | first evaluation, and what was added |')
 print('|---|---|---|---|---|')
